@@ -76,11 +76,21 @@ Hypothesis Hrx : o_rx c = true.
 Hypothesis Htmo : o_tmo c = Some d.
 
 (* an item that has arrived is handed over whatever the clock says, and ends the call: no call is in progress afterwards *)
-Theorem c12_stream_item_wins r : nth_error (o_items c) (o_taken c) = Some r -> r_kind r <> RDone ->
+(* (an entry on any stream; a reference or an intermediate message on a stream that is not behind EntriesOnly) *)
+Theorem c12_stream_item_wins r : nth_error (o_items c) (o_taken c) = Some r -> r_kind r <> RDone -> (r_kind r = REntry \/ o_kind c <> KSearch true) ->
   exists c', getop (step s (StreamNext o)) o = Some c' /\ o_got c' = o_got c ++ [r] /\ o_call c' = None /\ o_status c' = SActive.
 Proof.
-  intros Hn Hk. unfold step. rewrite Hc, Hst, Hrx. cbn [negb]. rewrite Hn.
-  destruct (r_kind r); try contradiction; (eexists; split; [apply getop_updop_same; exact Hc|]); cbn; rewrite Hst; repeat split.
+  intros Hn Hk Hv. unfold step. rewrite Hc, Hst, Hrx. cbn [negb]. rewrite Hn.
+  destruct (r_kind r); try contradiction; try (destruct (o_kind c) as [|[|]| |]; try (destruct Hv as [Hv|Hv]; [discriminate Hv|now elim Hv]));
+    (eexists; split; [apply getop_updop_same; exact Hc|]); cbn; rewrite Hst; repeat split.
+Qed.
+(* behind EntriesOnly a reference or an intermediate message is taken by the adapter, which calls next() again: nothing is handed over, the
+   call goes on, and its timer starts afresh now ("the timer restarts with every received item", also for the items the caller never sees) *)
+Theorem c12_stream_skipped_item_restarts_timer r : nth_error (o_items c) (o_taken c) = Some r -> (r_kind r = RRef \/ r_kind r = RInter) -> o_kind c = KSearch true ->
+  exists c', getop (step s (StreamNext o)) o = Some c' /\ o_got c' = o_got c /\ o_taken c' = S (o_taken c) /\ o_call c' = Some (now s) /\ o_status c' = SActive.
+Proof.
+  intros Hn Hk Ha. unfold step. rewrite Hc, Hst, Hrx. cbn [negb]. rewrite Hn.
+  destruct Hk as [Hk|Hk]; rewrite Hk, Ha; (eexists; split; [apply getop_updop_same; exact Hc|]); cbn; rewrite Hst; repeat split.
 Qed.
 
 Hypothesis Hnone : nth_error (o_items c) (o_taken c) = None.
